@@ -321,6 +321,10 @@ def geometry_findings(case, r):
                     # the spacing of two sibling subtrees accounts for a trunk that sticks out of its box towards the
                     # sibling: sibling trunks never overlap on the recorded finding, only an uncle's / cousin's trunk does
                     viol.append(msg + " (sibling species)")
+                elif p.startswith(q) or q.startswith(p):
+                    # nor does a trunk ever reach the trunk of one of its own ancestors / descendants on the unchanged code
+                    # (0 of 157 such overlaps in 140 000 layouts are of this kind): not the recorded finding
+                    viol.append(msg + " (a species and one of its ancestors)")
                 else:
                     known.append(KNOWN_TAG + ": " + msg)
     # anchors referenced by drawn branches
